@@ -51,6 +51,7 @@ MCSpec == MCInit /\ [][MCNext]_mcvars
 
 View == <<out, ring, now, rew>>
 Bound == Len(hist) < MaxEvents /\ now <= 3 * MaxAge + 2
+BoundNow == now <= 3 * MaxAge + 2      \* no depth bound: the view space is finite
 C05 == \A s \in Seqs : ChargeRule(s, now) /\ RepeatIsNoOp(s, now)
 Emit == Export => PrintT(<<"EDGE", ToJson([cfg |-> [nak |-> TRUE, links |-> MaxLinks], steps |-> hist'])>>)
 =============================================================================
